@@ -75,11 +75,32 @@ def run(tier):
                         if t.get('kind') == 'MemberExpr' and t.get('name') == 'last_hello_tx_ms':
                             if not any(os.path.realpath(str(x[2].get('_file'))) == os.path.realpath(str(n.get('_file'))) and x[2].get('_line') == n.get('_line') for x in writers):
                                 writers.append((facts.where(n).split(':')[0], fname, n))
-    rep.check(len(callers) == 1 and callers[0][1] == 'automata_tick', 'R12.a', 'callers',
+    # the tick "module": automata_tick and the static helpers all of whose callers belong to it (a tick split into
+    # tick_enumeration / tick_hello_timeout is still the tick)
+    aix = prog.unit(AUTOMATA_UNIT)
+    cgraph = {}
+    for fname, fn in aix.functions.items():
+        for n in walk(fn):
+            if n.get('kind') == 'CallExpr' and n.get('inner'):
+                c = n['inner'][0]
+                while c.get('kind') in ('ImplicitCastExpr', 'ParenExpr'):
+                    c = c['inner'][0]
+                if c.get('kind') == 'DeclRefExpr':
+                    cgraph.setdefault(c.get('referencedDecl', {}).get('name'), set()).add(fname)
+    tick_module = {'automata_tick'}
+    grew = True
+    while grew:
+        grew = False
+        for fname, fn in aix.functions.items():
+            if fname not in tick_module and fn.get('storageClass') == 'static' and cgraph.get(fname) and cgraph[fname] <= tick_module:
+                tick_module.add(fname)
+                grew = True
+    in_tick = lambda p_, f_: f_ in tick_module and p_.endswith('lltdAutomata.c')
+    rep.check(len(callers) == 1 and in_tick(callers[0][0], callers[0][1]), 'R12.a', 'callers',
               'the send_hello slot is invoked from %s; exactly one call site in automata_tick is expected' % [(p, f) for p, f, _ in callers],
               node=callers[0][2] if callers else None, function=callers[0][1] if callers else 'automata_tick', file=fnf,
               sample={'send_hello_call_sites': [(p, f) for p, f, _ in callers]})
-    rep.check(len(writers) >= 1 and all(w[1] == 'automata_tick' for w in writers), 'R12.e', 'stamp-writers',
+    rep.check(len(writers) >= 1 and all(in_tick(w[0], w[1]) for w in writers), 'R12.e', 'stamp-writers',
               'the last-transmit time is stored by %s; only automata_tick may' % [(p, f) for p, f, _ in writers], function='automata_tick', file=fnf,
               sample={'last_tx_writers': [(p, f) for p, f, _ in writers]})
 
